@@ -7,6 +7,7 @@ mod crashx;
 mod eagerx;
 mod importx;
 mod lazyx;
+mod openx;
 mod rawx;
 mod rawx_run;
 mod vecreads;
@@ -33,6 +34,9 @@ fn main() {
     }
     scratch::sweep_stale();
     seqx::install_panic_hook();
+    if args[1] == "openprobe" {
+        std::process::exit(openx::probe_main(&args[2], args.get(3).and_then(|s| s.parse().ok()).unwrap_or(0)));
+    }
     let code = if args[1] == "replay" {
         replay(&args[2])
     } else if args[1] == "worker" {
@@ -54,6 +58,14 @@ fn main() {
                 let mut run = report::Run::new(p, tier, "chessx");
                 chessx::run_jobs(&mut run, &kf, p, chessx::plan(p, tier), if tier == "quick" { 50 } else { 1800 }, p);
                 run.cov("rule", serde_json::json!("stateless depth-first exploration of all schedules of each small multi-thread program with at most the stated number of pre-emptions, on the real code under a controlling scheduler; an execution is one complete schedule; distinct = distinct (program, thread observations, deadlock) outcomes"));
+                run.finish()
+            }
+            "C18" => {
+                let kf = report::KnownFindings::load();
+                let mut run = report::Run::new("C18", tier, "openx+chessx");
+                openx::add(&mut run, &kf, tier);
+                chessx::run_jobs(&mut run, &kf, "C18", openx::thread_programs(tier == "quick"), if tier == "quick" { 25 } else { 600 }, "C18");
+                run.cov("rule", serde_json::json!("depth-first over all handle-lifecycle histories up to the stated depth (each executed from scratch on a fresh directory), with an open attempt from this process possible at every step and an open attempt from a child process as the last step; plus all schedules (pre-emption bounded) of concurrent opens"));
                 run.finish()
             }
             "C05" => {
